@@ -278,9 +278,14 @@ func TestC01(t *testing.T) {
 			st := store.New()
 			var root cid.Cid
 			var err error
+			bls := st.LinkSystem(false)
+			if fc.Len%3 == 2 {
+				bls = store.ChunkedEncoders(bls, 1+fc.Len%61) // encoders that emit a block in several Write calls
+				c.Count("builds_with_piecewise_encoders", 1)
+			}
 			withWidth(fc.Width, func() {
 				var l ipld.Link
-				l, _, err = builder.BuildUnixFSFile(bytes.NewReader(content), fc.Chunker, st.LinkSystem(false))
+				l, _, err = builder.BuildUnixFSFile(bytes.NewReader(content), fc.Chunker, bls)
 				root = linkCid(l)
 			})
 			if err != nil {
